@@ -212,7 +212,7 @@ def walker_rules(ctx, cfg, fs, rule, table):
         wired = bool(rec)
         for c in rec:
             a1 = provenance(c.body, c.args[1], c.bb, 'term'); a2 = provenance(c.body, c.args[2], c.bb, 'term')
-            wired &= all(r.kind == 'param' and r.what == 'flags' for r in a1) and all(r.kind == 'param' and r.what == 'args' for r in a2) and bool(a1) and bool(a2)
+            wired &= all(r.kind in ('param', 'upvar') and r.what == 'flags' and not r.path for r in a1) and all(r.kind in ('param', 'upvar') and r.what == 'args' and not r.path for r in a2) and bool(a1) and bool(a2)
         ctx.ob(rule, 'collect_shorts:accumulators-passed-straight', wired, 'every recursive call of collect_shorts passes (flags, args) in the same positions (%d calls): %s' % (len(rec), wired), where=b.where(), cfg=cfg)
         ctx.ob(rule, 'collect_shorts:item-table', good, 'collect_shorts: short names of flags feed `flags`, of arguments feed `args`, commands are descended into: %s' % detail, where=b.where(), cfg=cfg)
     if 'append_meta::go' in table:
